@@ -188,7 +188,11 @@ impl C12 {
       }
     }
     // the day-level conversion of the same Julian date
-    if !rounds_up || !carry {
+    // (a fraction within the f64 resolution of a Julian date - 4e-5 s near JD 2.4e6, 8e-5 s near JD 5e6 - of the half second
+    // rounds either way once it is a Julian date: at 23:59:59 that decides the day, so neither day is asserted)
+    if (frac - 0.5).abs() < 2e-4 && s == 86399 {
+      out.skip("fraction_within_float_resolution_of_the_half_second_before_midnight");
+    } else if !rounds_up || !carry {
       if let Ok(dd) = guard(|| ymd(&JulianDay::from_julian_day(jd).get_solar_day())) {
         if dd != c.ymd(i) {
           out.fail(env, viol("jd", "get_solar_day", case, &k, format!("JD {}", jd), c.fmt(i), fmt_ymd(dd)));
